@@ -127,6 +127,18 @@ func symCalendarObject(i int) CalendarObject {
 	return co
 }
 
+func newLoopClientAt(be Backend, endpointPath string) *Client {
+	lb := &internal.VerifLoopback{Handler: &Handler{Backend: be, Prefix: "/dav"}}
+	if vrt.Symbolic() {
+		return &Client{ic: internal.VerifNewClient(lb, endpointPath)}
+	}
+	c, err := NewClient(lb, "http://dav.example"+endpointPath)
+	if err != nil {
+		panic(err)
+	}
+	return c
+}
+
 func newLoopClient(be Backend) (*Client, *internal.VerifLoopback) {
 	lb := &internal.VerifLoopback{Handler: &Handler{Backend: be, Prefix: "/dav"}}
 	ic := internal.VerifNewClient(lb, "/dav/")
@@ -305,15 +317,27 @@ func VerifH_C10_GetPut() {
 	}
 	// PUT
 	cal := verifValidCalendar()
-	be.putResult = &CalendarObject{Path: "/dav/u/cal/c/" + vrt.StrNIn("stored-name", 1, 'a', 'z') + ".ics", ETag: vrt.Text("stored-etag")}
+	// the backend stores the object under the request path or elsewhere
+	putPath := "/dav/u/cal/c/new.ics"
+	storedPath := putPath
+	if vrt.Choose("stored-elsewhere", 2) == 1 {
+		storedPath = "/dav/u/cal/c/" + vrt.StrNIn("stored-name", 1, 'a', 'z') + ".ics"
+	}
+	be.putResult = &CalendarObject{Path: storedPath, ETag: vrt.Text("stored-etag")}
 	if vrt.Choose("stored-hasmodtime", 2) == 1 {
 		be.putResult.ModTime = vrt.Time("stored-modtime")
 	}
-	res, err := c.PutCalendarObject(context.Background(), "/dav/u/cal/c/new.ics", cal)
+	// the caller may name the resource relative to the client's endpoint
+	given := putPath
+	if vrt.Choose("relative-put-name", 2) == 1 {
+		c = newLoopClientAt(be, "/dav/u/cal/c/")
+		given = "new.ics"
+	}
+	res, err := c.PutCalendarObject(context.Background(), given, cal)
 	vrt.Assert(err == nil && res != nil, "PutCalendarObject succeeds")
 	if err == nil && res != nil {
 		vrt.Assert(calEq(be.putCal, cal), "PUT delivers to the backend a calendar equal to the caller's")
-		vrt.Assert(len(be.paths) > 0 && be.paths[len(be.paths)-1] == "/dav/u/cal/c/new.ics", "PUT is addressed to the named resource")
+		vrt.Assert(len(be.paths) > 0 && be.paths[len(be.paths)-1] == putPath, "PUT is addressed to the named resource")
 		vrt.Assert(res.Path == be.putResult.Path, "PUT hands back the backend's path")
 		vrt.Assert(res.ETag == be.putResult.ETag, "PUT hands back the backend's entity tag")
 		if be.putResult.ModTime.IsZero() {
